@@ -1,14 +1,25 @@
 /-
 C12 — a fitted model is self-consistent and survives save/load unchanged.
-Property theorems only (helper lemmas are private).  Model: `Model/Api.lean`, parts (b) and (c).
+Property theorems only (helper lemmas are private or in `Lemmas/Codec.lean`).
 
-`narrow` is the double → float32 conversion done by `torch.tensor(python_float)`; theorems that need it
-assume only that float32 values are fixed points (`narrow x = x` is part of `Model.canonical`) — the driver
-runs the model with `roundF32`, compared with torch on every value the harness sees.
+Two models:
+  * `Model/Api.lean`, parts (b) and (c) — the object across public calls (end of fit: population variables at the
+    prior mode) and the save / load path at the level of fields (section `ObjectModel`);
+  * `Model/Codec.lean` — the same path as a codec: JSON value trees, `Tensor.tolist` / `torch.tensor` / `view` for
+    every shape and dtype, the file-level dictionary of the five stateful kinds, `BaseModel.load` with its refusals
+    (sections `TensorCodec`, `FileCodec…`).
+
+`narrow` is the double → float32 conversion done by `torch.tensor(python_float)`; theorems that need it assume only
+that float32 values are fixed points (part of `canonical` / `wf`) and, where stated, idempotence — the drivers run
+`roundF32` / `narrow32`, compared with torch on every value the harness sees.
 -/
 import LeaspyVerif.Model.Api
+import LeaspyVerif.Model.Codec
+import LeaspyVerif.Lemmas.Codec
 
 namespace LeaspyVerif.C12
+
+section ObjectModel
 open LeaspyVerif.Api
 
 /-! ### helpers -/
@@ -246,5 +257,726 @@ example :
       ∧ r.bind (fun m' => .ok (m'.params.map (fun p => (p.1, p.2.data)))) = .ok (m.params.map (fun p => (p.1, p.2.data)))
       ∧ r.bind (fun m' => (load roundF32 (toDict m')).bind (fun m'' => .ok (toDict m''))) = r.bind (fun m' => .ok (toDict m')) := by
   decide +kernel
+
+end ObjectModel
+
+/-! ## The save / load path as a codec (`Model/Codec.lean`)
+
+`narrow` is the double → float32 conversion of `torch.tensor(python_float)`; the theorems use it only through the
+hypotheses they state (`wf` says that the elements of a float32 tensor are fixed points; `hidem` is idempotence).
+The driver runs `narrow32`; the harness compares it with torch over the whole double range. -/
+
+section TensorCodec
+open LeaspyVerif.Codec
+
+/-- **Shape seen by the loader.** `compute_sizes` on `t.tolist()` recovers the shape up to and including the first
+    zero-length axis, for every tensor. -/
+theorem tolist_sizes (t : Codec.Tensor) : sizes (toJson t) = .ok (cutShape t.shape) :=
+  sizes_nest t.shape t.data
+
+/-- **`torch.tensor(t.tolist())` in closed form**, for every tensor object (any shape, any dtype): with at least one
+    element the shape is kept, the dtype becomes the default of its class (bool / int64 / float32) and every float goes
+    through `narrow`; without elements the result is the empty float32 tensor of the cut shape. -/
+theorem tensor_reload_closed_form (narrow : Fl → Fl) (t : Codec.Tensor) (hwf : t.wf narrow = true) :
+    ofJson narrow (toJson t) = .ok (t.back narrow) := by
+  simp only [Codec.Tensor.wf, Bool.and_eq_true, beq_iff_eq, List.all_eq_true] at hwf
+  obtain ⟨hl, hall⟩ := hwf
+  unfold ofJson toJson
+  split
+  · rename_i s h; exact absurd h (nest_ne_str _ _ s)
+  · rw [sizes_nest]
+    by_cases h0 : numel t.shape = 0
+    · simp [infer_nest_zero _ _ h0, numel_cutShape_of_zero _ h0, Codec.Tensor.back, h0, Cls.dtype]
+    · have hc : ∀ e ∈ t.data, e.cls = t.dtype.cls := fun e he => okFor_cls narrow _ e (hall e he)
+      simp [infer_nest t.dtype.cls _ _ h0 hl hc, cutShape_of_ne_zero _ h0, h0, store_nest narrow t.dtype _ _ hl hall,
+        Codec.Tensor.back]
+
+private theorem map_back_eq (narrow : Fl → Fl) (dt : DType) (hdt : dt = .bool ∨ dt = .int64 ∨ dt = .float32)
+    (d : List Elem) (h : ∀ e ∈ d, e.okFor narrow dt = true) : d.map (Elem.back narrow) = d := by
+  have : ∀ e ∈ d, Elem.back narrow e = e := by
+    intro e he
+    have := h e he
+    rcases hdt with rfl | rfl | rfl <;> cases e <;> simp_all [Elem.okFor, Elem.back]
+  calc d.map (Elem.back narrow) = d.map id := List.map_congr_left this
+    _ = d := List.map_id _
+
+/-- **Round trip of the tensor codec, exact guard.** For every tensor object, `torch.tensor(t.tolist())` gives `t`
+    back (dtype, shape and every value) if and only if `t.stable`: with elements, the dtype is bool, int64 or float32
+    (float32 values survive because the text carries the exact double and `narrow` fixes every float32 — that is `wf`);
+    without elements, the dtype is float32 and the first zero-length axis is the last one. -/
+theorem tensor_roundtrip_iff (narrow : Fl → Fl) (t : Codec.Tensor) (hwf : t.wf narrow = true) :
+    ofJson narrow (toJson t) = .ok t ↔ t.stable = true := by
+  rw [tensor_reload_closed_form narrow t hwf]
+  simp only [Codec.Tensor.wf, Bool.and_eq_true, beq_iff_eq, List.all_eq_true] at hwf
+  obtain ⟨hl, hall⟩ := hwf
+  obtain ⟨dt, sh, d⟩ := t
+  simp only at hl hall
+  by_cases h0 : numel sh = 0
+  · have hd : d = [] := List.eq_nil_of_length_eq_zero (by rw [hl, h0])
+    subst hd
+    simp only [Codec.Tensor.back, h0, ↓reduceIte, Codec.Tensor.stable, Out.ok.injEq, Codec.Tensor.mk.injEq, and_true,
+      Bool.and_eq_true, beq_iff_eq]
+    constructor
+    · rintro ⟨h1, h2⟩; exact ⟨h1.symm, h2⟩
+    · rintro ⟨h1, h2⟩; exact ⟨h1.symm, h2⟩
+  · simp only [Codec.Tensor.back, h0, ↓reduceIte, Codec.Tensor.stable, Out.ok.injEq, Codec.Tensor.mk.injEq, true_and,
+      Bool.or_eq_true, beq_iff_eq]
+    constructor
+    · rintro ⟨h1, _⟩
+      cases dt <;> simp_all [DType.cls, Cls.dtype]
+    · intro h
+      have hdt : dt = .bool ∨ dt = .int64 ∨ dt = .float32 := by
+        rcases h with (h | h) | h <;> simp [h]
+      refine ⟨?_, map_back_eq narrow dt hdt d hall⟩
+      rcases hdt with rfl | rfl | rfl <;> rfl
+
+/-- The zero-length axes are really lost (witnesses for the "only if" above, computed): a float32 tensor of shape
+    `(0, 3)` comes back with shape `(0,)`; an int64 tensor of shape `(0,)` comes back as float32; shape `(3, 0)` is
+    kept. -/
+theorem tensor_roundtrip_zero_axis_counterexample :
+    ofJson narrow32 (toJson ⟨.float32, [0, 3], []⟩) = .ok ⟨.float32, [0], []⟩
+      ∧ ofJson narrow32 (toJson ⟨.int64, [0], []⟩) = .ok ⟨.float32, [0], []⟩
+      ∧ ofJson narrow32 (toJson ⟨.float32, [3, 0], []⟩) = .ok ⟨.float32, [3, 0], []⟩ := by
+  decide +kernel
+
+/-- F21 at the level of one tensor: a float64 tensor with elements comes back as float32 holding the narrowed
+    values — for every shape. -/
+theorem tensor_reload_double_narrows (narrow : Fl → Fl) (t : Codec.Tensor) (hwf : t.wf narrow = true)
+    (hd : t.dtype = .float64) (h0 : numel t.shape ≠ 0) :
+    ofJson narrow (toJson t) = .ok ⟨.float32, t.shape, t.data.map (Elem.back narrow)⟩ := by
+  rw [tensor_reload_closed_form narrow t hwf]
+  simp [Codec.Tensor.back, h0, hd, DType.cls, Cls.dtype]
+
+/-- … and the narrowing is a change: the double `80.44985490161451` (a `tau_mean` after a joint fit) comes back as
+    the float32 `80.44985198974609375`, with the complete rounding function. -/
+theorem tensor_reload_double_counterexample :
+    let x : Fl := .fin (1415288814675475 / 17592186044416)
+    ofJson narrow32 (toJson ⟨.float64, [1], [.f x]⟩) = .ok ⟨.float32, [1], [.f (.fin (10544723 / 131072))]⟩
+      ∧ (Codec.Tensor.wf narrow32 ⟨.float64, [1], [.f x]⟩) = true := by
+  decide +kernel
+
+/-- **`val_to_tensor(t.tolist(), shape)`** (what `load_parameters` does with every stored parameter): it succeeds
+    exactly when `shape` has as many elements as `t`, whatever the two shapes are — zero-length axes included, the
+    shape written in the file plays no role — and the result carries the DAG's shape. -/
+theorem view_reload (narrow : Fl → Fl) (t : Codec.Tensor) (hwf : t.wf narrow = true) (sh : List Nat) :
+    valToTensor narrow (some sh) (toJson t)
+      = if numel sh = numel t.shape then .ok ⟨(t.back narrow).dtype, sh, (t.back narrow).data⟩ else .err .runtime := by
+  unfold valToTensor
+  rw [tensor_reload_closed_form narrow t hwf]
+  by_cases h0 : numel t.shape = 0
+  · simp [view, Codec.Tensor.back, h0, numel_cutShape_of_zero _ h0]
+  · simp [view, Codec.Tensor.back, h0]
+
+/-- F25 explained: a 0-d parameter (what `scalar_noise_std_update` leaves after a fit) is written as a bare number;
+    the loader views it under the DAG's shape `(1,)`, so the reloaded tensor has one more axis and is written as a
+    one-element list — a different file — while the value is the same.  For every float32 value. -/
+theorem scalar_parameter_gets_an_axis (narrow : Fl → Fl) (x : Fl) (hx : narrow x = x) :
+    let t0 : Codec.Tensor := ⟨.float32, [], [.f x]⟩
+    let t1 : Codec.Tensor := ⟨.float32, [1], [.f x]⟩
+    toJson t0 = .flt x ∧ toJson t1 = .arr [.flt x] ∧ toJson t0 ≠ toJson t1
+      ∧ valToTensor narrow (some [1]) (toJson t0) = .ok t1
+      ∧ valToTensor narrow (some [1]) (toJson t1) = .ok t1 := by
+  refine ⟨rfl, rfl, by simp [toJson, nest, Elem.toJson], ?_, ?_⟩
+  · simp [valToTensor, ofJson, toJson, nest, Elem.toJson, sizes, infer, store, scalarOf, numel, view, Cls.dtype, hx]
+  · simp [valToTensor, ofJson, toJson, nest, Elem.toJson, sizes, sizesHead, infer, inferList, store, storeList, scalarOf,
+      numel, view, Cls.dtype, Cls.promote, chunks, hx]
+
+private theorem back_back (narrow : Fl → Fl) (hidem : ∀ x, narrow (narrow x) = narrow x) (e : Elem) :
+    Elem.back narrow (Elem.back narrow e) = Elem.back narrow e := by
+  cases e <;> simp [Elem.back, hidem]
+
+private theorem back_okFor (narrow : Fl → Fl) (hidem : ∀ x, narrow (narrow x) = narrow x) (dt : DType) (e : Elem)
+    (h : e.okFor narrow dt = true) : (Elem.back narrow e).okFor narrow dt.cls.dtype = true := by
+  cases dt <;> cases e <;> simp_all [Elem.okFor, Elem.back, DType.cls, Cls.dtype, inInt64] <;> omega
+
+/-- **Re-saving is stable after one round.** Whatever tensor the model held (any dtype, any shape with the DAG's
+    number of elements), the tensor `t'` installed by `load_parameters` is a fixed point: writing `t'` and loading it
+    again under the same DAG shape gives `t'` itself, so from the second file on the bytes do not change.
+    Uses idempotence of `narrow`. -/
+theorem resave_stable (narrow : Fl → Fl) (hidem : ∀ x, narrow (narrow x) = narrow x) (t : Codec.Tensor)
+    (hwf : t.wf narrow = true) (sh : List Nat) (hn : numel sh = numel t.shape) :
+    ∃ t', valToTensor narrow (some sh) (toJson t) = .ok t' ∧ t'.shape = sh
+      ∧ valToTensor narrow (some sh) (toJson t') = .ok t' := by
+  refine ⟨⟨(t.back narrow).dtype, sh, (t.back narrow).data⟩, ?_, rfl, ?_⟩
+  · rw [view_reload narrow t hwf sh, if_pos hn]
+  · simp only [Codec.Tensor.wf, Bool.and_eq_true, beq_iff_eq, List.all_eq_true] at hwf
+    obtain ⟨hl, hall⟩ := hwf
+    by_cases h0 : numel t.shape = 0
+    · have hs0 : numel sh = 0 := by rw [hn, h0]
+      have hwf' : (Codec.Tensor.wf narrow ⟨.float32, sh, []⟩) = true := by simp [Codec.Tensor.wf, hs0]
+      simp only [Codec.Tensor.back, h0, ↓reduceIte]
+      rw [view_reload narrow _ hwf' sh]
+      simp [Codec.Tensor.back, hs0]
+    · have hs0 : numel sh ≠ 0 := by rw [hn]; exact h0
+      have hwf' : (Codec.Tensor.wf narrow ⟨t.dtype.cls.dtype, sh, t.data.map (Elem.back narrow)⟩) = true := by
+        simp only [Codec.Tensor.wf, List.length_map, hl, hn, beq_self_eq_true, Bool.true_and, List.all_eq_true]
+        intro e he
+        obtain ⟨e0, he0, rfl⟩ := List.mem_map.mp he
+        exact back_okFor narrow hidem _ e0 (hall e0 he0)
+      simp only [Codec.Tensor.back, h0, ↓reduceIte]
+      rw [view_reload narrow _ hwf' sh]
+      have hcls : t.dtype.cls.dtype.cls.dtype = t.dtype.cls.dtype := by cases t.dtype <;> rfl
+      simp [Codec.Tensor.back, hs0, hcls, List.map_map, Function.comp_def, back_back narrow hidem]
+
+end TensorCodec
+
+
+section FileCodec
+open LeaspyVerif.Codec
+
+/-- what `o.loadable` says, in propositional form -/
+private theorem loadable_unpack (X : Ext) (narrow : Fl → Fl)
+    (others : Codec.Kind → Nat → Nat → Noise → Nat → Nat → List (String × Other)) (o : Obj)
+    (hl : o.loadable X narrow others = true) :
+    ∃ fs s, o.features = some fs ∧ o.sourceDim = some s ∧ fs ≠ [] ∧ (o.dimAttr = none ∨ o.dimAttr = some fs.length)
+      ∧ s ≤ fs.length - 1 ∧ ¬(o.noise = .diagonal ∧ fs.length = 1)
+      ∧ (o.kind = .joint → 1 ≤ o.nbEvents ∧ ¬((fs.length = 1 ∨ s = 0) ∧ o.noise ≠ .scalar))
+      ∧ (o.kind ≠ .joint → o.nbEvents = 1)
+      ∧ (o.kind = .mixture → 2 ≤ o.nClusters) ∧ (o.kind ≠ .mixture → o.nClusters = 0)
+      ∧ paramsLoadable narrow (Codec.paramSpec o.kind fs.length s o.noise o.nClusters o.nbEvents) o.params = true
+      ∧ (s = 0 ∨ checkOther narrow (others o.kind fs.length s o.noise o.nClusters o.nbEvents)
+            ("mixing_matrix", toJson (X.mixing o.kind fs.length s o.pop)) = .ok ()) := by
+  unfold Obj.loadable at hl
+  cases hf : o.features with
+  | none => simp [hf] at hl
+  | some fs =>
+    cases hs : o.sourceDim with
+    | none => simp [hf, hs] at hl
+    | some s =>
+      simp only [hf, hs, hypWf, Bool.and_eq_true, Bool.not_eq_true', Bool.or_eq_true, beq_iff_eq,
+        decide_eq_true_eq, Bool.and_eq_false_imp] at hl
+      obtain ⟨⟨⟨⟨⟨⟨⟨h1, h2⟩, h3⟩, h4⟩, h5⟩, h6⟩, h7⟩, h8⟩ := hl
+      refine ⟨fs, s, rfl, rfl, ?_, ?_, h3, ?_, ?_, ?_, ?_, ?_, h7, ?_⟩
+      · intro h; simp [h] at h1
+      · rcases h2 with h | h
+        · left; cases hd : o.dimAttr <;> simp_all
+        · right; exact h
+      · rintro ⟨a, b⟩; have := h4 a; simp_all
+      · intro hk
+        simp only [hk, ↓reduceIte, Bool.and_eq_true, decide_eq_true_eq, Bool.not_eq_true', Bool.and_eq_false_imp,
+          Bool.or_eq_true, beq_iff_eq] at h5
+        refine ⟨h5.1, ?_⟩
+        rintro ⟨a, b⟩
+        have := h5.2 a
+        simp_all
+      · intro hk; simpa [hk] using h5
+      · intro hk; simpa [hk] using h6
+      · intro hk; simpa [hk] using h6
+      · rcases h8 with h | h
+        · left; exact h
+        · right; exact h
+
+/-- the `dimension` property of a loadable object -/
+private theorem loadable_dim (o : Obj) (fs : List String) (hf : o.features = some fs)
+    (hd : o.dimAttr = none ∨ o.dimAttr = some fs.length) : o.dim = some fs.length := by
+  rcases hd with h | h <;> simp [Obj.dim, h, hf]
+
+/-- **`load(save(o))` in closed form, for every model description that satisfies the decidable predicate
+    `loadable`** (feature names present and consistent with the dimension, source dimension within bounds, an
+    observation model the factory rebuilds, the DAG's parameter names each with the DAG's number of elements — any
+    dtype, any shape — and a mixing matrix the non-parameter check lets through) **and whose stored name is, up to
+    case, its kind**: `to_dict` succeeds, `BaseModel.load` accepts the file and builds exactly `o.reloaded`: the
+    same kind, features, source dimension, observation model, fit metrics, event / cluster counts; the instance name
+    replaced by the kind; `_dimension` filled in; every parameter viewed under the DAG's shape with the default dtype
+    of its class and narrowed values; population variables at the prior mode. -/
+theorem load_toDict (X : Ext) (narrow : Fl → Fl)
+    (others : Codec.Kind → Nat → Nat → Noise → Nat → Nat → List (String × Other)) (o : Obj)
+    (hl : o.loadable X narrow others = true) (hn : o.name.toLower = o.kind.toName) :
+    ∃ j, toDict X o = .ok j ∧ Codec.load narrow others j = .ok (o.reloaded narrow) := by
+  obtain ⟨fs, s, hf, hs, hfs, hda, hsb, hnz, hj, hnj, hm, hnm, hpl, hmix⟩ := loadable_unpack X narrow others o hl
+  have hdim := loadable_dim o fs hf hda
+  have hnames : o.params.map Prod.fst
+      = (Codec.paramSpec o.kind fs.length s o.noise o.nClusters o.nbEvents).map Prod.fst := by
+    simp only [paramsLoadable, Bool.and_eq_true, beq_iff_eq] at hpl
+    exact hpl.1
+  refine ⟨.obj (fileFields X o fs.length s), ?_, ?_⟩
+  · simp [toDict, hdim, hs, hnames]
+  · have hc := construct_fileFields X o fs s hf hfs hsb hnz hj hnj hm hnm
+    have hp := loadParamsObj_written narrow (Codec.paramSpec o.kind fs.length s o.noise o.nClusters o.nbEvents)
+      (others o.kind fs.length s o.noise o.nClusters o.nbEvents) o.params
+      (if s ≥ 1 then [("mixing_matrix", toJson (X.mixing o.kind fs.length s o.pop))] else [])
+      (Codec.paramSpec_nodup _ _ _ _ _ _) hpl (by
+        intro q hq
+        by_cases h1 : s ≥ 1
+        · simp only [h1, ↓reduceIte, List.mem_singleton] at hq
+          subst hq
+          refine ⟨mixing_not_param _ _ _ _ _ _, ?_⟩
+          rcases hmix with h | h
+          · omega
+          · exact h
+        · simp [h1] at hq)
+    simp only [Codec.load, fileFields_name, fileFields_version, fileFields_parameters, Option.isNone_some,
+      Bool.false_eq_true, ↓reduceIte, hn, kindOfName_toName, hc, loadParameters, hp]
+    simp [Obj.reloaded, hf, hs]
+
+/-- **`load(save(o)) = o` on the modelled core**: a loadable model whose parameters are canonical (fixed points of the
+    normalisation: DAG shapes, default dtype, single precision), whose name is its kind, whose population variables
+    are at the prior mode (`canonical`) and whose `_dimension` is set comes back as the very same description. -/
+theorem load_toDict_identity (X : Ext) (narrow : Fl → Fl)
+    (others : Codec.Kind → Nat → Nat → Noise → Nat → Nat → List (String × Other)) (o : Obj)
+    (hl : o.loadable X narrow others = true) (hc : o.canonical narrow = true) (hd : o.dimAttr = o.dim) :
+    ∃ j, toDict X o = .ok j ∧ Codec.load narrow others j = .ok o := by
+  obtain ⟨fs, s, hf, hs, _, hda, _⟩ := loadable_unpack X narrow others o hl
+  simp only [Obj.canonical, hf, hs, Bool.and_eq_true, beq_iff_eq, paramsCanonical] at hc
+  obtain ⟨⟨hname, hpc⟩, hpop⟩ := hc
+  have hn : o.name.toLower = o.kind.toName := by
+    rw [hname]; cases o.kind <;> decide +kernel
+  obtain ⟨j, h1, h2⟩ := load_toDict X narrow others o hl hn
+  refine ⟨j, h1, ?_⟩
+  rw [h2]
+  have hdim := loadable_dim o fs hf hda
+  have : o.reloaded narrow = o := by
+    obtain ⟨k, nm, fe, da, sd, nz, fm, nb, nc, ps, pp⟩ := o
+    simp only at hf hs hname hpc hpop hd hdim
+    subst hf hs
+    simp only [Obj.reloaded, hpc, ← hname, ← hpop]
+    rw [hd, hdim]
+  rw [this]
+
+/-- **Byte-identical re-save** (the file is a function of its tree): for a loadable, canonical model, saving the
+    reloaded model writes exactly the first file — whatever `_dimension` was. -/
+theorem resave_identical (X : Ext) (narrow : Fl → Fl)
+    (others : Codec.Kind → Nat → Nat → Noise → Nat → Nat → List (String × Other)) (o : Obj)
+    (hl : o.loadable X narrow others = true) (hc : o.canonical narrow = true) :
+    ∃ j, toDict X o = .ok j ∧ (Codec.load narrow others j).bind (toDict X) = .ok j := by
+  obtain ⟨fs, s, hf, hs, _, hda, _⟩ := loadable_unpack X narrow others o hl
+  have hc' := hc
+  simp only [Obj.canonical, hf, hs, Bool.and_eq_true, beq_iff_eq, paramsCanonical] at hc'
+  obtain ⟨⟨hname, hpc⟩, hpop⟩ := hc'
+  have hn : o.name.toLower = o.kind.toName := by
+    rw [hname]; cases o.kind <;> decide +kernel
+  obtain ⟨j, h1, h2⟩ := load_toDict X narrow others o hl hn
+  refine ⟨j, h1, ?_⟩
+  rw [h2, ← h1]
+  have hdim := loadable_dim o fs hf hda
+  simp only [Out.bind]
+  obtain ⟨k, nm, fe, da, sd, nz, fm, nb, nc, ps, pp⟩ := o
+  simp only at hf hs hname hpc hpop hdim
+  subst hf hs
+  simp only [Obj.reloaded, hpc, ← hname, ← hpop]
+  simp only [toDict, Obj.dim] at hdim ⊢
+  simp only [hdim]
+  rfl
+
+end FileCodec
+
+
+section FileCodec2
+open LeaspyVerif.Codec
+
+private theorem elem_back_back (narrow : Fl → Fl) (hidem : ∀ x, narrow (narrow x) = narrow x) (e : Elem) :
+    Elem.back narrow (Elem.back narrow e) = Elem.back narrow e := by
+  cases e <;> simp [Elem.back, hidem]
+
+private theorem normTensor_idem (narrow : Fl → Fl) (hidem : ∀ x, narrow (narrow x) = narrow x) (sh : List Nat)
+    (t : Codec.Tensor) (hn : numel sh = numel t.shape) :
+    normTensor narrow sh (normTensor narrow sh t) = normTensor narrow sh t := by
+  by_cases h0 : numel t.shape = 0
+  · have hs0 : numel sh = 0 := by rw [hn, h0]
+    simp [normTensor, Codec.Tensor.back, h0, hs0]
+  · have hs0 : numel sh ≠ 0 := by rw [hn]; exact h0
+    have hcls : t.dtype.cls.dtype.cls.dtype = t.dtype.cls.dtype := by cases t.dtype <;> rfl
+    simp [normTensor, Codec.Tensor.back, h0, hs0, hcls, List.map_map, Function.comp_def, elem_back_back narrow hidem]
+
+private theorem normParams_idem (narrow : Fl → Fl) (hidem : ∀ x, narrow (narrow x) = narrow x) :
+    ∀ (spec : List (String × List Nat)) (ps : List (String × Codec.Tensor)),
+      (∀ ep ∈ List.zip spec ps, numel ep.1.2 = numel ep.2.2.shape) →
+      normParams narrow spec (normParams narrow spec ps) = normParams narrow spec ps
+  | [], _, _ => by simp [normParams]
+  | _ :: _, [], _ => by simp [normParams]
+  | e :: spec, p :: ps, h => by
+    have ih := normParams_idem narrow hidem spec ps (fun ep hep => h ep (by simp [hep]))
+    have h0 := h (e, p) (by simp)
+    simp only [normParams] at ih ⊢
+    simp only [List.zipWith_cons_cons, ih, normTensor_idem narrow hidem e.2 p.2 h0]
+
+/-- **After one round the model is canonical** (F25 and F21 at file level): whatever loadable object was saved —
+    0-d `noise_std`, float64 parameters, any instance name that is its kind up to case — the object that `load`
+    builds is a fixed point of the normalisation, is named after its kind and has its population variables at the
+    prior mode.  Uses idempotence of `narrow`. -/
+theorem reloaded_canonical (X : Ext) (narrow : Fl → Fl) (hidem : ∀ x, narrow (narrow x) = narrow x)
+    (others : Codec.Kind → Nat → Nat → Noise → Nat → Nat → List (String × Other)) (o : Obj)
+    (hl : o.loadable X narrow others = true) :
+    (o.reloaded narrow).canonical narrow = true := by
+  unfold Obj.loadable at hl
+  cases hf : o.features with
+  | none => simp [hf] at hl
+  | some fs =>
+    cases hs : o.sourceDim with
+    | none => simp [hf, hs] at hl
+    | some s =>
+      simp only [hf, hs, Bool.and_eq_true] at hl
+      have hpl := hl.1.2
+      simp only [paramsLoadable, Bool.and_eq_true, beq_iff_eq, List.all_eq_true] at hpl
+      have hnum : ∀ ep ∈ List.zip (Codec.paramSpec o.kind fs.length s o.noise o.nClusters o.nbEvents) o.params,
+          numel ep.1.2 = numel ep.2.2.shape := fun ep hep => (hpl.2 ep hep).2
+      simp [Obj.reloaded, Obj.canonical, hf, hs, paramsCanonical, normParams_idem narrow hidem _ _ hnum]
+
+/-- **Re-saving is stable from the second file on.** If the reloaded object is itself loadable (decidable; the
+    only clause not inherited is the one on the recomputed mixing matrix), the file it writes is reproduced byte for
+    byte by every further `load` / `save` round. -/
+theorem resave_stable_after_one_round (X : Ext) (narrow : Fl → Fl) (hidem : ∀ x, narrow (narrow x) = narrow x)
+    (others : Codec.Kind → Nat → Nat → Noise → Nat → Nat → List (String × Other)) (o : Obj)
+    (hl : o.loadable X narrow others = true) (hl' : (o.reloaded narrow).loadable X narrow others = true) :
+    ∃ j₂, toDict X (o.reloaded narrow) = .ok j₂ ∧ (Codec.load narrow others j₂).bind (toDict X) = .ok j₂ :=
+  resave_identical X narrow others (o.reloaded narrow) hl' (reloaded_canonical X narrow hidem others o hl)
+
+/-- F7 at file level, both directions of the dispatch: a loadable model whose lower-cased instance name is not a
+    model kind writes a file that `load` refuses with `ValueError`, whatever else the model holds. -/
+theorem load_toDict_unknown_name (X : Ext) (narrow : Fl → Fl)
+    (others : Codec.Kind → Nat → Nat → Noise → Nat → Nat → List (String × Other)) (o : Obj)
+    (hl : o.loadable X narrow others = true) (hn : kindOfName o.name.toLower = none) :
+    ∃ j, toDict X o = .ok j ∧ Codec.load narrow others j = .err .value := by
+  obtain ⟨fs, s, hf, hs, _, hda, _, _, _, _, _, _, hpl, _⟩ := loadable_unpack X narrow others o hl
+  have hdim := loadable_dim o fs hf hda
+  have hnames : o.params.map Prod.fst
+      = (Codec.paramSpec o.kind fs.length s o.noise o.nClusters o.nbEvents).map Prod.fst := by
+    simp only [paramsLoadable, Bool.and_eq_true, beq_iff_eq] at hpl
+    exact hpl.1
+  refine ⟨.obj (fileFields X o fs.length s), by simp [toDict, hdim, hs, hnames], ?_⟩
+  simp [Codec.load, fileFields_name, fileFields_version, fileFields_parameters, hn]
+
+/-- The three mandatory keys, as the loader checks them: a file (any object) without `name`, `parameters` or
+    `leaspy_version` is refused with `LeaspyModelInputError`; a `name` that is not a string with `AttributeError`; a
+    top-level list with `LeaspyModelInputError`, a top-level number / `null` with `TypeError`. -/
+theorem load_mandatory_keys (narrow : Fl → Fl)
+    (others : Codec.Kind → Nat → Nat → Noise → Nat → Nat → List (String × Other)) (kvs : List (String × JVal)) :
+    ((kvs.lookup "name").isNone ∨ (kvs.lookup "parameters").isNone ∨ (kvs.lookup "leaspy_version").isNone →
+        Codec.load narrow others (.obj kvs) = .err .modelInput)
+      ∧ (∀ v ps ver, kvs.lookup "name" = some v → kvs.lookup "parameters" = some ps →
+          kvs.lookup "leaspy_version" = some ver → strOf v = none →
+          Codec.load narrow others (.obj kvs) = .err .attribute)
+      ∧ (∀ l, Codec.load narrow others (.arr l) = .err .modelInput)
+      ∧ Codec.load narrow others .null = .err .type ∧ (∀ i, Codec.load narrow others (.int i) = .err .type) := by
+  refine ⟨?_, ?_, fun _ => rfl, rfl, fun _ => rfl⟩
+  · intro h
+    simp only [Codec.load]
+    rcases h with h | h | h
+    · simp only [h, ↓reduceIte]
+    · by_cases h1 : (kvs.lookup "name").isNone = true
+      · simp only [h1, ↓reduceIte]
+      · simp only [h1, h, Bool.false_eq_true, ↓reduceIte]
+    · by_cases h1 : (kvs.lookup "name").isNone = true
+      · simp only [h1, ↓reduceIte]
+      · by_cases h2 : (kvs.lookup "parameters").isNone = true
+        · simp only [h1, h2, Bool.false_eq_true, ↓reduceIte]
+        · simp only [h1, h2, h, Bool.false_eq_true, ↓reduceIte]
+  · intro v ps ver h1 h2 h3 hv
+    simp only [Codec.load, h1, h2, h3, Option.isNone_some, Bool.false_eq_true, ↓reduceIte]
+    cases v <;> simp_all [strOf]
+
+/-- F23 at file level: a model with a dimension and no feature names is saved with `"features": null`, and that file
+    is refused with `TypeError` (`len(None)`), for every kind. -/
+theorem load_toDict_features_null (X : Ext) (narrow : Fl → Fl)
+    (others : Codec.Kind → Nat → Nat → Noise → Nat → Nat → List (String × Other)) (o : Obj) (d s : Nat)
+    (hf : o.features = none) (hd : o.dimAttr = some d) (hs : o.sourceDim = some s)
+    (hnames : o.params.map Prod.fst = (Codec.paramSpec o.kind d s o.noise o.nClusters o.nbEvents).map Prod.fst)
+    (hn : o.name.toLower = o.kind.toName) :
+    ∃ j, toDict X o = .ok j ∧ Codec.load narrow others j = .err .type := by
+  refine ⟨.obj (fileFields X o d s), by simp [toDict, Obj.dim, hd, hs, hnames], ?_⟩
+  simp only [Codec.load, fileFields_name, fileFields_version, fileFields_parameters, Option.isNone_some,
+    Bool.false_eq_true, ↓reduceIte, hn, kindOfName_toName]
+  cases hk : o.kind <;>
+    simp [fileFields, hk, hf, featuresJ, hyperOf, reservedKeys, lower_features, lower_dimension, lower_obs, lower_fit,
+      lower_src, lower_nb, lower_ncl, construct, getLast, outsideKeys, List.lookup, dimOf, featOf]
+
+/-- **What `to_dict` reads** (self-consistency of the written file): the `parameters` block is the live state's value
+    of every ModelParameter node through `tolist`, followed — when there are sources — by the mixing matrix derived
+    from the live population variables; `dimension` is the `dimension` property, i.e. `len(features)` whenever
+    `_dimension` is unset; the key list is the one of the model's class. -/
+theorem toDict_reads_live_state (X : Ext) (o : Obj) (j : JVal) (h : toDict X o = .ok j) :
+    ∃ d s kvs, o.dim = some d ∧ o.sourceDim = some s ∧ j = .obj kvs
+      ∧ kvs.lookup "parameters" = some (.obj (tensorsJ o.params
+          ++ (if s ≥ 1 then [("mixing_matrix", toJson (X.mixing o.kind d s o.pop))] else [])))
+      ∧ kvs.lookup "dimension" = some (.int d)
+      ∧ (o.dimAttr = none → ∀ fs, o.features = some fs → d = fs.length)
+      ∧ kvs.lookup "name" = some (.str o.name)
+      ∧ kvs.map Prod.fst = ["leaspy_version", "name", "features", "dimension", "hyperparameters", "parameters",
+          "obs_models", "fit_metrics"] ++ (match o.kind with
+            | .joint => ["source_dimension", "nb_events"]
+            | .mixture => ["n_clusters", "source_dimension"]
+            | _ => ["source_dimension"]) := by
+  unfold toDict at h
+  cases hd : o.dim with
+  | none => simp [hd] at h
+  | some d =>
+    cases hs : o.sourceDim with
+    | none => simp [hd, hs] at h
+    | some s =>
+      simp only [hd, hs] at h
+      split at h
+      · cases h
+      · simp only [Out.ok.injEq] at h
+        refine ⟨d, s, fileFields X o d s, rfl, rfl, h.symm, fileFields_parameters X o d s, ?_, ?_,
+          fileFields_name X o d s, ?_⟩
+        · simp [fileFields, List.lookup]
+        · intro hda fs hfs
+          simp [Obj.dim, hda, hfs] at hd
+          exact hd.symm
+        · cases hk : o.kind <;> simp [fileFields, hk]
+
+/-- **A fit starts from a well-formed description.** Whatever hyperparameters the object was created with, once
+    `initialize(dataset)` has accepted a dataset with at least one feature the attributes satisfy the hyperparameter
+    clause of `loadable`: feature names present, `_dimension` unset or equal to their number, source dimension within
+    `[0, d-1]` — with the repaired default `min(⌊√d⌋, d-1)` (F22), so a one-feature model has no source. -/
+theorem initialized_hypWf (p p' : Pre) (headers : List String) (hne : headers ≠ [])
+    (h : initFromDataset p headers = .ok p') :
+    hypWf p'.features p'.dimAttr p'.sourceDim = true
+      ∧ p'.features = some headers
+      ∧ (headers.length = 1 → p'.sourceDim = some 0) := by
+  have hpos : 1 ≤ headers.length := by
+    cases headers with
+    | nil => exact absurd rfl hne
+    | cons a l => simp
+  unfold initFromDataset at h
+  by_cases c1 : (p.dim.isSome && p.dim != some headers.length) = true
+  · simp [c1] at h
+  · by_cases c2 : (p.features.isSome && p.features != some headers) = true
+    · simp [c1, c2] at h
+    · simp only [c1, c2, Bool.false_eq_true, ↓reduceIte] at h
+      have hda : p.dimAttr = none ∨ p.dimAttr = some headers.length := by
+        cases hd : p.dimAttr with
+        | none => left; rfl
+        | some d =>
+          right
+          simp [Pre.dim, hd] at c1
+          rw [c1]
+      cases hsd : p.sourceDim with
+      | none =>
+        simp only [hsd, Out.ok.injEq] at h
+        subst h
+        refine ⟨?_, rfl, ?_⟩
+        · rcases hda with h | h <;> simp [hypWf, h, hne] <;> omega
+        · intro h1; simp [h1]
+      | some s =>
+        simp only [hsd] at h
+        by_cases c3 : s < headers.length
+        · simp only [c3, ↓reduceIte, Out.ok.injEq] at h
+          subst h
+          refine ⟨?_, rfl, ?_⟩
+          · rcases hda with h | h <;> simp [hypWf, h, hsd, hne] <;> omega
+          · intro h1; simp only [hsd]; congr; omega
+        · simp [c3] at h
+
+end FileCodec2
+
+
+section FileCodec3
+open LeaspyVerif.Codec
+
+/-- the two models agree on the DAG's parameter names and shapes (Gaussian observation models; the codec model adds
+    the Bernoulli one, which has no `noise_std`) -/
+theorem paramSpec_agrees_with_api (d s K E : Nat) (scalar : Bool) :
+    let nz : Noise := if scalar then .scalar else .diagonal
+    Codec.paramSpec .logistic d s nz K E = Api.paramSpec .logistic d s scalar K E
+      ∧ Codec.paramSpec .linear d s nz K E = Api.paramSpec .linear d s scalar K E
+      ∧ Codec.paramSpec .sharedSpeed d s nz K E = Api.paramSpec .sharedSpeedLogistic d s scalar K E
+      ∧ Codec.paramSpec .joint d s nz K E = Api.paramSpec .joint d s scalar K E
+      ∧ Codec.paramSpec .mixture d s nz K E = Api.paramSpec .mixtureLogistic d s scalar K E := by
+  cases scalar <;> simp [Codec.paramSpec, Api.paramSpec]
+
+/-- a concrete world for the computed statements below: no Hyperparameter node written, a constant mixing matrix -/
+private def X0 : Ext := ⟨"2.0.0", fun _ _ _ _ _ _ => [], fun _ d s _ => ⟨.float32, [s, d], List.replicate (s * d) (.f (.fin 0))⟩⟩
+
+private def others0 : Codec.Kind → Nat → Nat → Noise → Nat → Nat → List (String × Other) :=
+  fun _ d s _ _ _ => mixingOther d s
+
+private def f32 (sh : List Nat) (xs : List Rat) : Codec.Tensor := ⟨.float32, sh, xs.map (fun q => .f (.fin q))⟩
+
+/-- a fitted two-feature, one-source logistic model with a shared noise level: `noise_std` is 0-d after the fit -/
+private def oFit (name : String) (noise : Codec.Tensor) : Obj :=
+  let ps : List (String × Codec.Tensor) :=
+    [("betas_mean", f32 [1, 1] [1/4]), ("log_g_mean", f32 [2] [0, 1/2]), ("log_v0_mean", f32 [2] [-4, -9/2]),
+     ("noise_std", noise), ("tau_mean", f32 [1] [10544723/131072]), ("tau_std", f32 [1] [8]), ("xi_std", f32 [1] [1/2])]
+  ⟨.logistic, name, some ["A", "B"], none, some 1, .scalar, .null, 1, 0, ps, priorMode ps⟩
+
+/-- Non-vacuity of `loadable` / `canonical` with the real rounding, computed: the model with `noise_std` of shape
+    `(1,)` satisfies both, `load(save(·))` returns it up to `_dimension`, and the re-save is the same tree. -/
+example :
+    let o := oFit "logistic" (f32 [1] [13421773/134217728])
+    o.loadable X0 narrow32 others0 = true ∧ o.canonical narrow32 = true
+      ∧ (toDict X0 o).bind (Codec.load narrow32 others0) = .ok { o with dimAttr := some 2 }
+      ∧ ((toDict X0 o).bind (Codec.load narrow32 others0)).bind (toDict X0) = toDict X0 o := by
+  decide +kernel
+
+/-- F25 at file level, computed: with the 0-d `noise_std` a fit leaves, the object is loadable but not canonical;
+    the first re-save differs from the first file, the reloaded object is canonical, and the second re-save
+    reproduces the second file. -/
+theorem resave_scalar_noise_counterexample :
+    let o := oFit "logistic" (f32 [] [13421773/134217728])
+    let r := (toDict X0 o).bind (Codec.load narrow32 others0)
+    o.loadable X0 narrow32 others0 = true ∧ o.canonical narrow32 = false
+      ∧ r.isOk = true
+      ∧ r.bind (toDict X0) ≠ toDict X0 o
+      ∧ r.bind (fun o' => .ok (o'.canonical narrow32)) = .ok true
+      ∧ (r.bind (toDict X0)).bind (fun j => (Codec.load narrow32 others0 j).bind (toDict X0)) = r.bind (toDict X0) := by
+  decide +kernel
+
+/-- F7 at file level, computed: the same model created with `instance_name="my_model"` is loadable in every other
+    respect; its file is refused with `ValueError`. -/
+theorem load_toDict_any_name_counterexample :
+    let o := oFit "my_model" (f32 [1] [13421773/134217728])
+    o.loadable X0 narrow32 others0 = true
+      ∧ (toDict X0 o).bind (Codec.load narrow32 others0) = .err .value := by
+  decide +kernel
+
+/-- Strict key set, computed on the file of the model above: an unknown top-level key is ignored by the
+    time-reparametrized classes (`_load_hyperparameters` has no check) … -/
+theorem unknown_key_ignored_counterexample :
+    let o := oFit "logistic" (f32 [1] [13421773/134217728])
+    (toDict X0 o).bind (fun j => match j with
+        | .obj kvs => Codec.load narrow32 others0 (.obj (kvs ++ [("noise_model", .str "x")]))
+        | _ => .err .outside)
+      = (toDict X0 o).bind (Codec.load narrow32 others0) := by
+  decide +kernel
+
+
+/-- replace the `mixing_matrix` entry of the `parameters` block of a file -/
+private def withMixing (v : JVal) : JVal → JVal
+  | .obj kvs => .obj (kvs.map fun p =>
+      if p.1 == "parameters" then
+        (p.1, match p.2 with
+          | .obj ps => .obj (ps.map fun q => if q.1 == "mixing_matrix" then (q.1, v) else q)
+          | x => x)
+      else p)
+  | x => x
+
+/-- F30, computed: `load_parameters` was written to compare the non-parameter values of a file with the recomputed
+    ones, but its `assert (cond, msg)` is an assertion on a non-empty tuple.  As shipped (`mixingOther`), the file of the
+    model above with the mixing matrix overwritten by `[[5, 5]]` (the true one is `[[0, 0]]`) is accepted, the edit is
+    silently dropped (the re-save is the unedited file, not the file that was loaded); with effective assertions
+    (`mixingOtherChecked`, the repair) the same file is refused with `AssertionError`, and the unedited one still
+    loads. -/
+theorem stale_mixing_matrix_accepted_counterexample :
+    let o := oFit "logistic" (f32 [1] [13421773/134217728])
+    let j := toDict X0 o
+    let j' := j.bind (fun t => .ok (withMixing (.arr [.arr [.flt (.fin 5), .flt (.fin 5)]]) t))
+    let checked : Codec.Kind → Nat → Nat → Noise → Nat → Nat → List (String × Other) :=
+      fun _ d s _ _ _ => mixingOtherChecked d s [.fin 0, .fin 0]
+    j' ≠ j
+      ∧ (j'.bind (Codec.load narrow32 others0)).isOk = true
+      ∧ (j'.bind (Codec.load narrow32 others0)).bind (toDict X0) = j
+      ∧ j'.bind (Codec.load narrow32 checked) = .err .assertion
+      ∧ (j.bind (Codec.load narrow32 checked)).isOk = true := by
+  decide +kernel
+
+end FileCodec3
+
+
+section FileCodec4
+open LeaspyVerif.Codec
+
+/-- **Strict key set of the loader, as an iff.** Take the file of any loadable model (name = kind up to case) and add
+    one top-level key `k` whose lower-cased form is none of the keywords a constructor reads (and which is not one of
+    the four keys `ModelSettings` sets aside).  The file is refused **iff the model is a mixture model**, and then with
+    `LeaspyModelInputError` (`_raise_if_unknown_hyperparameters`); for the four time-reparametrized kinds the key is
+    silently ignored and the loaded object is the one of the unedited file. -/
+theorem unknown_key_refused_iff (X : Ext) (narrow : Fl → Fl)
+    (others : Codec.Kind → Nat → Nat → Noise → Nat → Nat → List (String × Other)) (o : Obj)
+    (hl : o.loadable X narrow others = true) (hn : o.name.toLower = o.kind.toName) (k : String) (v : JVal)
+    (hr : k ∉ reservedKeys) (hk : k.toLower ∉ mixtureKeys ++ outsideKeys ++ ["nb_events"]) :
+    ∃ kvs, toDict X o = .ok (.obj kvs)
+      ∧ Codec.load narrow others (.obj (kvs ++ [(k, v)]))
+          = (if o.kind = .mixture then .err .modelInput else .ok (o.reloaded narrow))
+      ∧ ((Codec.load narrow others (.obj (kvs ++ [(k, v)]))).isOk = false ↔ o.kind = .mixture) := by
+  obtain ⟨fs, s, hf, hs, hfs, hda, hsb, hnz, hj, hnj, hm, hnm, hpl, hmix⟩ := loadable_unpack X narrow others o hl
+  have hdim := loadable_dim o fs hf hda
+  have hnames : o.params.map Prod.fst
+      = (Codec.paramSpec o.kind fs.length s o.noise o.nClusters o.nbEvents).map Prod.fst := by
+    simp only [paramsLoadable, Bool.and_eq_true, beq_iff_eq] at hpl
+    exact hpl.1
+  have hload : Codec.load narrow others (.obj (fileFields X o fs.length s ++ [(k, v)]))
+      = (if o.kind = .mixture then .err .modelInput else .ok (o.reloaded narrow)) := by
+    have hc := construct_fileFields_extra X o fs s k.toLower v hf hfs hsb hnz hj hnj hm hnm hk
+    have hp := loadParamsObj_written narrow (Codec.paramSpec o.kind fs.length s o.noise o.nClusters o.nbEvents)
+      (others o.kind fs.length s o.noise o.nClusters o.nbEvents) o.params
+      (if s ≥ 1 then [("mixing_matrix", toJson (X.mixing o.kind fs.length s o.pop))] else [])
+      (Codec.paramSpec_nodup _ _ _ _ _ _) hpl (by
+        intro q hq
+        by_cases h1 : s ≥ 1
+        · simp only [h1, ↓reduceIte, List.mem_singleton] at hq
+          subst hq
+          refine ⟨mixing_not_param _ _ _ _ _ _, ?_⟩
+          rcases hmix with h | h
+          · omega
+          · exact h
+        · simp [h1] at hq)
+    simp only [Codec.load, List.lookup_append, fileFields_name, fileFields_version, fileFields_parameters,
+      Option.isNone_some, Option.some_or, Bool.false_eq_true, ↓reduceIte, hn, kindOfName_toName,
+      hyperOf_append_unreserved _ k v hr, hc]
+    by_cases hkm : o.kind = .mixture
+    · simp [hkm]
+    · simp only [hkm, ↓reduceIte, loadParameters, hp]
+      simp [Obj.reloaded, hf, hs]
+  refine ⟨fileFields X o fs.length s, by simp [toDict, hdim, hs, hnames], hload, ?_⟩
+  rw [hload]
+  by_cases hkm : o.kind = .mixture <;> simp [hkm, Out.isOk]
+
+end FileCodec4
+
+
+section FileCodec5
+open LeaspyVerif.Codec
+
+/-- overwrite the value stored under key `k` -/
+private def setVal (k : String) (v : JVal) : List (String × JVal) → List (String × JVal)
+  | [] => []
+  | (a, b) :: kvs => (if a = k then (a, v) else (a, b)) :: setVal k v kvs
+
+private theorem lookup_setVal_ne (k k' : String) (v : JVal) (h : k' ≠ k) :
+    ∀ kvs : List (String × JVal), (setVal k v kvs).lookup k' = kvs.lookup k'
+  | [] => rfl
+  | (a, b) :: kvs => by
+    have ih := lookup_setVal_ne k k' v h kvs
+    by_cases hk : a = k
+    · subst hk
+      have : (k' == a) = false := by simpa using h
+      simp only [setVal, ↓reduceIte, List.lookup, this, ih]
+    · by_cases hk2 : k' = a
+      · subst hk2; simp only [setVal, hk, ↓reduceIte, List.lookup, beq_self_eq_true]
+      · have : (k' == a) = false := by simpa using hk2
+        simp only [setVal, hk, ↓reduceIte, List.lookup, this, ih]
+
+private theorem lookup_setVal_isNone (k : String) (v : JVal) :
+    ∀ kvs : List (String × JVal), ((setVal k v kvs).lookup k).isNone = (kvs.lookup k).isNone
+  | [] => rfl
+  | (a, b) :: kvs => by
+    have ih := lookup_setVal_isNone k v kvs
+    by_cases hk : a = k
+    · subst hk; simp only [setVal, ↓reduceIte, List.lookup, beq_self_eq_true, Option.isNone_some]
+    · have : (k == a) = false := by simpa using Ne.symm hk
+      simp only [setVal, hk, ↓reduceIte, List.lookup, this, ih]
+
+private theorem hyperOf_setVal (k : String) (v : JVal) (hk : reservedKeys.contains k = true) :
+    ∀ kvs : List (String × JVal), hyperOf (setVal k v kvs) = hyperOf kvs
+  | [] => rfl
+  | (a, b) :: kvs => by
+    have ih := hyperOf_setVal k v hk kvs
+    simp only [hyperOf] at ih ⊢
+    by_cases ha : a = k
+    · subst ha
+      simp only [setVal, ↓reduceIte, List.filter_cons, hk, Bool.not_true, Bool.false_eq_true]
+      exact ih
+    · simp only [setVal, ha, ↓reduceIte, List.filter_cons]
+      split
+      · simp only [List.map_cons, ih]
+      · exact ih
+
+/-- **Keys the loader requires but never reads.** Whatever value is stored under `leaspy_version` or under
+    `hyperparameters` — the whole block of Hyperparameter values `to_dict` writes — `load` returns the same outcome:
+    the version is only required to be present, the block is not even required. For every file. -/
+theorem load_ignores_version_and_hyperparameters (narrow : Fl → Fl)
+    (others : Codec.Kind → Nat → Nat → Noise → Nat → Nat → List (String × Other)) (kvs : List (String × JVal))
+    (v : JVal) :
+    Codec.load narrow others (.obj (setVal "leaspy_version" v kvs)) = Codec.load narrow others (.obj kvs)
+      ∧ Codec.load narrow others (.obj (setVal "hyperparameters" v kvs)) = Codec.load narrow others (.obj kvs) := by
+  constructor
+  · simp only [Codec.load, lookup_setVal_isNone, lookup_setVal_ne "leaspy_version" "name" v (by decide),
+      lookup_setVal_ne "leaspy_version" "parameters" v (by decide), hyperOf_setVal "leaspy_version" v (by decide)]
+  · simp only [Codec.load, lookup_setVal_ne "hyperparameters" "leaspy_version" v (by decide),
+      lookup_setVal_ne "hyperparameters" "name" v (by decide),
+      lookup_setVal_ne "hyperparameters" "parameters" v (by decide), hyperOf_setVal "hyperparameters" v (by decide)]
+
+end FileCodec5
 
 end LeaspyVerif.C12
